@@ -8,10 +8,11 @@ UNITS = {1: ['htp_connection.c'] + BASE + ['htp_transaction.c', 'htp_connection_
          6: ['htp_connection.c', 'htp_connection_parser.c', 'htp_transaction.c', 'htp_util.c', 'htp_utf8_decoder.c', 'htp_config.c', 'htp_request_generic.c'] + BASE,
          7: ['htp_parsers.c', 'htp_util.c', 'htp_utf8_decoder.c', 'htp_base64.c'] + BASE,
          8: ['htp_connection.c', 'htp_connection_parser.c', 'htp_transaction.c', 'htp_util.c', 'htp_utf8_decoder.c', 'htp_config.c'] + BASE,
+         10: ['htp_connection.c', 'htp_connection_parser.c', 'htp_transaction.c', 'htp_util.c', 'htp_utf8_decoder.c', 'htp_config.c', 'htp_response_generic.c'] + BASE,
          9: ['htp_urlencoded.c', 'htp_util.c', 'htp_utf8_decoder.c', 'bstr_builder.c'] + BASE}
-UNW = {1: 4, 2: 6, 3: 6, 4: 8, 5: 8, 6: 10, 7: 12, 8: 30, 9: 10}
-MAXALLOC = {1: 8, 2: 12, 3: 8, 4: 10, 5: 14, 6: 24, 7: 6, 8: 26, 9: 20}
-NAMES = {1: 'conn', 2: 'connp_tx', 3: 'hooks', 4: 'config_copy', 5: 'containers', 6: 'req_headers', 7: 'auth', 8: 'request_line_uri', 9: 'urlencoded'}
+UNW = {1: 4, 2: 6, 3: 6, 4: 8, 5: 8, 6: 10, 7: 12, 8: 30, 9: 10, 10: 12}
+MAXALLOC = {1: 8, 2: 12, 3: 8, 4: 10, 5: 14, 6: 24, 7: 6, 8: 26, 9: 20, 10: 24}
+NAMES = {1: 'conn', 2: 'connp_tx', 3: 'hooks', 4: 'config_copy', 5: 'containers', 6: 'req_headers', 7: 'auth', 8: 'request_line_uri', 9: 'urlencoded', 10: 'res_headers'}
 def ob(func, k, kind=None, tier='quick', **kw):
     d = {'FUNC': func, 'MAXALLOC': MAXALLOC[func], 'FAILAT': k}
     nm = NAMES[func]
@@ -23,7 +24,7 @@ def ob(func, k, kind=None, tier='quick', **kw):
               bounds='allocation ordinal %d fails (one query per ordinal 0..%d, which covers every allocation of the fault-free run plus "no failure": the symbolic-ordinal query runs out of memory); small concrete inputs' % (k, MAXALLOC[func]), **kw)
 def obligations(tier):
     obs = []
-    for f in (1, 2, 3, 5, 6, 8, 9):
+    for f in (1, 2, 3, 5, 6, 8, 9, 10):
         obs += [ob(f, k) for k in range(MAXALLOC[f] + 1)]
     for kind in (0, 1): obs += [ob(7, k, kind) for k in range(MAXALLOC[7] + 1)]
     # configuration copy: ordinals 1..8 hit the listed finding (kf_only), the others must verify
